@@ -1,6 +1,7 @@
 import PyModeS.Models
 import PyModeS.Spec.CPR
 import Driver.Fmt
+import Driver.FloatIO
 open PyModeS Driver
 
 def fmtOR := fmtOpt fmtRat
@@ -175,6 +176,28 @@ def handle (iasOfMach : Rat → Int → Rat) (ws : List String) : String :=
       let e := fun (o : Option Nat) => match o with | some n => fmtNat n | none => "''"
       joinBar [e f.di, fmtStr f.ic, fmtBool f.los, e f.pr, e f.rr, e f.rrs, fmtStr f.bds]
     | _ => "BAD-OP"
+  | "aero" :: fn :: args =>
+    let a := args.map floatOfHex
+    let g := fun i => a.getD i 0.0
+    let r : Option Float := match fn with
+      | "pressure" => some (Aero.pressure (g 0))
+      | "density" => some (Aero.density (g 0))
+      | "temperature" => some (Aero.temperature (g 0))
+      | "vsound" => some (Aero.vsound (g 0))
+      | "tas2mach" => some (Aero.tas2mach (g 0) (g 1))
+      | "mach2tas" => some (Aero.mach2tas (g 0) (g 1))
+      | "eas2tas" => some (Aero.eas2tas (g 0) (g 1))
+      | "tas2eas" => some (Aero.tas2eas (g 0) (g 1))
+      | "cas2tas" => some (Aero.cas2tas (g 0) (g 1))
+      | "tas2cas" => some (Aero.tas2cas (g 0) (g 1))
+      | "mach2cas" => some (Aero.mach2cas (g 0) (g 1))
+      | "cas2mach" => some (Aero.cas2mach (g 0) (g 1))
+      | "distance" => some (Aero.distance (g 0) (g 1) (g 2) (g 3) (g 4))
+      | "bearing" => some (Aero.bearing (g 0) (g 1) (g 2) (g 3))
+      | _ => none
+    match r with
+    | some f => "f:" ++ hexOfFloat f
+    | none => "BAD-OP"
   | ["feed_beast", raw, cuts] => feedOp .beast raw cuts
   | ["feed_raw", raw, cuts] => feedOp .raw raw cuts
   | ["feed_skysense", raw, cuts] => feedOp .skysense raw cuts
@@ -203,7 +226,7 @@ partial def loop (h : IO.FS.Stream) (out : IO.FS.Stream) : IO Unit := do
   let line ← h.getLine
   if line.isEmpty then return ()
   let ws := (line.trimAscii.toString.splitOn " ").filter (· ≠ "")
-  out.putStrLn (handle iasOfMachStub ws)
+  out.putStrLn (handle iasOfMachF ws)
   loop h out
 
 def main : IO Unit := do
